@@ -200,6 +200,15 @@ func genC06(seed uint64, run int, tier string) *Plan {
 			tp.Ops = append(tp.Ops, Op{K: "restart"})
 		}
 	}
+	if r.IntN(5) == 0 {
+		// one or two commits fail before anything is persisted (the store answers with an error): the call reports
+		// the error, and what the engine serves afterwards must still be what the next reload returns - a write
+		// that stays visible without having been stored shows as a difference at the next restart or at the end
+		// (drawn last, so that the operations of a run are the same with and without the fault)
+		for k := 1 + r.IntN(2); k > 0; k-- {
+			p.Faults = append(p.Faults, Fault{Kind: "store-before", At: r.IntN(n + 1)})
+		}
+	}
 	p.Tasks = []TaskPlan{tp}
 	return p
 }
